@@ -306,7 +306,7 @@ func runCacheCase(c J, caseNo int, full bool, emit func(J)) {
 		emit(J{"ev": "open", "case": id, "hist": c["hist"], "variant": variant, "ok": ok, "equal": eq, "panic": perr})
 		os.Remove(fname)
 	}
-	masks := []byte{0x01, 0x80, 0xFF}
+	masks := []byte{0x01, 0x20, 0x80, 0xFF}
 	offsets := func(lo, hi int) []int {
 		var xs []int
 		n := hi - lo
@@ -336,6 +336,18 @@ func runCacheCase(c J, caseNo int, full bool, emit func(J)) {
 		lo := 60 + body*idx/parts
 		hi := 60 + body*(idx+1)/parts
 		return lo, hi
+	}
+	// a fault that strikes a finished entry strikes an entry that has been in use: the intact file is opened
+	// (successfully) under the same name, in the same process, before every faulty image is
+	switch asStr(last["a"]) {
+	case "corrupt-slot", "corrupt-block", "truncate-header", "truncate-body", "extend":
+		inner := attempt
+		attempt = func(variant string, data []byte, r, d []byte, fname string) {
+			ioutil.WriteFile(name, base, 0644)
+			ok, eq, perr := tryOpen(dir, rsum[:], dsum[:], want)
+			emit(J{"ev": "open", "case": id, "hist": hist[:len(hist)-1], "variant": "intact-before-" + variant, "ok": ok, "equal": eq, "panic": perr})
+			inner(variant, data, r, d, fname)
+		}
 	}
 	switch asStr(last["a"]) {
 	case "crash", "create", "write", "closebody", "hash":
@@ -369,7 +381,8 @@ func runCacheCase(c J, caseNo int, full bool, emit func(J)) {
 	case "corrupt-slot":
 		s := asInt(last["n"])
 		for off := 20 * (s - 1); off < 20*s; off++ {
-			for _, m := range masks {
+			// header slots: every single-bit mask and the full byte
+			for _, m := range []byte{0x01, 0x02, 0x04, 0x08, 0x10, 0x20, 0x40, 0x80, 0xFF} {
 				data := append([]byte(nil), base...)
 				data[off] ^= m
 				attempt(fmt.Sprintf("flip@%d^%02x", off, m), data, rsum[:], dsum[:], name)
